@@ -189,6 +189,8 @@ KINDS = {   # kind -> (argument spec, Gallina runner [, how the Gallina argument
     "divself": ("p", "run_div", lambda c: c + " " + c),
     # histories (index-assign / trim / coeffs() followed by the views and operators): search-only, no Gallina twin
     "hist": ("ppns", None),
+    # C12: w.polydiv(&w) (the same object) and w.polydiv(&w.clone()), both answers in one stream: search-only, each judged by the oracle
+    "divpair": ("p", None),
 }
 
 def mk_case(elt, kind, vals, family, nontrivial=True, tol=1e-12, with_term=True):
